@@ -15,7 +15,7 @@ ID = "C13"
 LEVEL = "exploration"
 RULE = ("Complete enumeration of all histories up to length 3 (quick) / 4 (thorough, plus all length-5 histories over the 15 core letters of the property's quantifier, plus Hypothesis-sampled histories of length 5..30) over the 26-letter alphabet "
         "{connect-ok (also with a device announcing maxdata 0), creating a streaming_shell generator and consuming it later, connect-fail in {transport refuses, AUTH without keys, invalid challenge, silent device, public key answered by another challenge instead of CNXN}, close, close whose transport.close() raises, exec_out, root, shell, streaming_shell, reboot, list, stat, pull, push, "
-        "and list/stat/pull/push (BytesIO, file and directory sources) with an empty device path}, for AdbDevice and AdbDeviceAsync. Oracle = two-state model: `available` equals the model after every step and is False when observed "
+        "and list/stat/pull/push (BytesIO, file and directory sources) with an empty device path, and a shell whose OPEN is never answered (times out; available must stay True)}, for AdbDevice and AdbDeviceAsync. Oracle = two-state model: `available` equals the model after every step and is False when observed "
         "from inside transport.connect() of a running attempt; a disconnected operation raises AdbConnectionError (DevicePathInvalidError for an empty path; either when both apply) without a single "
         "transport write and without creating the pull destination; a connected operation is served by the simulator, returns the model's value and never raises AdbConnectionError. "
         "Non-trivial: history contains a failed connect or a close followed by an operation. Distinct = (history, api).")
